@@ -21,11 +21,18 @@ Lemma predict_file v c : p_file (predict v c) =
 Proof.
   unfold predict. rewrite <- trace_snd. destruct (trace v (c_ops c) (init_of v c)). reflexivity.
 Qed.
-Lemma predict_untouched v c : p_untouched (predict v c) =
-  fs_eqb (s_fs (run v (c_ops c) (init_of v c))) (s_fs (init_of v c)).
-Proof.
-  unfold predict. rewrite <- trace_snd. destruct (trace v (c_ops c) (init_of v c)). reflexivity.
-Qed.
+Lemma trace_fst_cons v o ops st :
+  fst (trace v (o :: ops) st) =
+  {| x_cursor := s_cursor (fst (step v st o)); x_disk := seen_file (s_fs (fst (step v st o))); x_res := snd (step v st o);
+     x_grew := negb (optnat_eqb (kv_len (s_fs st)) (kv_len (s_fs (fst (step v st o)))));
+     x_locid := loc_id (s_fs (fst (step v st o))); x_touched := negb (fs_eqb (s_fs st) (s_fs (fst (step v st o)))) |}
+  :: fst (trace v ops (fst (step v st o))).
+Proof. cbn [trace]. destruct (step v st o) as [st1 r]. cbn [fst snd]. destruct (trace v ops st1). reflexivity. Qed.
+
+Lemma predict_steps v c : p_steps (predict v c) = fst (trace v (c_ops c) (init_of v c)).
+Proof. unfold predict. destruct (trace v (c_ops c) (init_of v c)). reflexivity. Qed.
+Lemma predict_locid0 v c : p_locid0 (predict v c) = loc_id (s_fs (init_of v c)).
+Proof. unfold predict. destruct (trace v (c_ops c) (init_of v c)). reflexivity. Qed.
 
 Lemma entry_eqb_refl e : entry_eqb e e = true.
 Proof. unfold entry_eqb. rewrite !N.eqb_refl, eqb_reflx. reflexivity. Qed.
@@ -36,7 +43,48 @@ Proof. intros H; induction l; cbn; [reflexivity | now rewrite H, IHl]. Qed.
 Lemma fs_eqb_refl f : fs_eqb f f = true.
 Proof.
   apply list_eqb_refl. intros [n d]. cbn. rewrite fname_eqb_refl. cbn.
-  destruct d; cbn; [apply list_eqb_refl, entry_eqb_refl | apply N.eqb_refl].
+  destruct d; cbn; [apply list_eqb_refl, entry_eqb_refl | apply N.eqb_refl | apply bytes_eqb_refl].
+Qed.
+
+Lemma step_store_id v st o : s_store_id (fst (step v st o)) = s_store_id st.
+Proof.
+  destruct o; cbn [step fst s_store_id with_fs]; try reflexivity.
+  unfold run_backup. destruct (s_running st); [reflexivity|].
+  destruct (valid_location st) as [ok f1]. destruct ok; cbn [fst s_store_id]; [|reflexivity].
+  now destruct (dnb_frame v (with_fs st f1)) as (_ & -> & _).
+Qed.
+
+(** for EVERY history, including changes of the location's id file by the environment between runs
+    and across restarts, and under every variant: a hub step taken while the location carries a
+    different id changes no file of the location and is not a returned run *)
+Theorem trace_foreign_ok v ops : forall st,
+  foreign_ok (s_store_id st) (loc_id (s_fs st)) ops (fst (trace v ops st)) = true.
+Proof.
+  induction ops as [|o ops IH]; intros st; [reflexivity|].
+  rewrite trace_fst_cons. cbn [foreign_ok x_locid x_touched x_res].
+  apply andb_true_iff; split.
+  - destruct (is_env o) eqn:He; [reflexivity|].
+    destruct (is_foreign (s_store_id st) (loc_id (s_fs st))) eqn:F; [|reflexivity].
+    assert (Fo : foreign st).
+    { unfold is_foreign, loc_id in F. destruct (fs_get (s_fs st) FStorageId) as [[l|n|b]|] eqn:G; try discriminate.
+      exists b. split; [exact G|]. intros ->. now rewrite bytes_eqb_refl in F. }
+    destruct (foreign_step v st o He Fo) as (A & _ & _ & R).
+    rewrite A, fs_eqb_refl. cbn. destruct (snd (step v st o) =? R_RETURNED) eqn:E; [|reflexivity].
+    apply N.eqb_eq in E. contradiction.
+  - rewrite <- (step_store_id v st o). apply IH.
+Qed.
+
+Lemma optbytes_eqb_eq a b : optbytes_eqb a b = true <-> a = b.
+Proof.
+  destruct a, b; cbn; try (split; congruence). rewrite bytes_eqb_eq. split; congruence.
+Qed.
+Lemma optN_eqb_eq a b : optN_eqb a b = true <-> a = b.
+Proof. destruct a, b; cbn; try (split; congruence). rewrite N.eqb_eq. split; congruence. Qed.
+Lemma step_eqb_eq a b : step_eqb a b = true <-> a = b.
+Proof.
+  destruct a, b. unfold step_eqb. cbn.
+  rewrite !andb_true_iff, !N.eqb_eq, optN_eqb_eq, optbytes_eqb_eq, !eqb_true_iff.
+  split; [intros [[[[[-> ->] ->] ->] ->] ->]; reflexivity | intros [= -> -> -> -> -> ->]; auto 10].
 Qed.
 
 Lemma subset_b_incl a b : incl a b -> subset_b a b = true.
@@ -59,25 +107,23 @@ Proof.
   intros H. unfold listing. induction universe as [|dk u IH]; cbn; [reflexivity|]. now rewrite H, IH.
 Qed.
 
-Lemma foreign_init v m0 : foreign (init v m0 store_id foreign_fs).
-Proof. exists 4711. split; [reflexivity | discriminate]. Qed.
-
 Theorem agree_fixed_spec c : agree fixed c = true -> spec_ok c = true.
 Proof.
   unfold agree, spec_ok. intros H.
   apply andb_true_iff in H. destruct H as [H H4].
   apply andb_true_iff in H. destruct H as [H H3].
-  clear H. rewrite predict_snap in H3.
-  destruct (c_foreign c) eqn:F.
-  - (* foreign location *)
-    rewrite predict_untouched in H4. unfold init_of in H4. rewrite F in H4.
-    destruct (foreign_never_written fixed (c_ops c) _ (foreign_init fixed (c_m0 c))) as [E _].
-    rewrite E, fs_eqb_refl in H4. cbn in H4. destruct (o_untouched c); [reflexivity | discriminate].
-  - apply andb_true_iff in H4. destruct H4 as [H4 H5].
+  apply andb_true_iff in H. destruct H as [H H2].
+  apply andb_true_iff in H. destruct H as [_ H1].
+  rewrite predict_snap in H3. rewrite predict_steps in H2. rewrite predict_locid0 in H1.
+  apply optbytes_eqb_eq in H1. apply (list_eqb_eq step_eqb step_eqb_eq) in H2.
+  apply andb_true_iff; split.
+  - rewrite <- H1, <- H2. exact (trace_foreign_ok fixed (c_ops c) (init_of fixed c)).
+  - destruct (c_foreign c) eqn:F; [reflexivity|].
+    apply andb_true_iff in H4. destruct H4 as [H4 H5].
     unfold rich_claim in H5. rewrite predict_snap in H5. rewrite predict_file in H4, H5.
     unfold init_of in *. rewrite F in *.
-    pose proof (Inv_run fixed (c_ops c) eq_refl _ (Inv_init fixed (c_m0 c) store_id)) as I.
-    set (st := run fixed (c_ops c) (init fixed (c_m0 c) store_id [])) in *.
+    pose proof (Inv_run fixed (c_ops c) eq_refl _ (Inv_init fixed (c_m0 c) (c_sid c))) as I.
+    set (st := run fixed (c_ops c) (init fixed (c_m0 c) (c_sid c) [])) in *.
     destruct (s_snap st) as [s|] eqn:Es.
     + destruct (inv_snap _ _ I s Es) as (A & B & C & D).
       rewrite A in H4, H5. unfold badger_load in *.
